@@ -13,7 +13,8 @@ CFG = dict(
                    "(committed transaction: Commit and Discard fail with no write), C14_discard_frame / C14_discard_complete; "
                    "pre-repair code refuted (C14_once_v0_refuted, C14_completable_v0_refuted, C14_discard_v0_refuted). Model "
                    "tied to pkg/transaction by differential execution over real objmock + SQLite stores behind "
-                   "fault-injecting wrappers, every fault position, plus an independent Go oracle.",
+                   "fault-injecting wrappers (every store call) and SQLite triggers (every statement of SetWithLog), plus an "
+                   "independent Go oracle.",
         level_note="partial by design: atomicity of one object-store Set and one SQL transaction, and no other writer between "
                    "the interrupted Commit and its re-run, are assumptions; theorems are about coq/model/Txn.v (hand "
                    "transliteration, content-addressed commits as values); failing READS are covered by the oracle on the "
@@ -23,7 +24,9 @@ CFG = dict(
              "branches random profiles; for each configuration EVERY mutating-call position n of Commit (0..2k+1) as crash "
              "(mode 0) [+ single failure, mode 1], followed by re-run, double Commit, Discard-after-commit; Discard of a "
              "partially landed transaction; every position of Discard (0..k+1) then re-run; pairs of crashes (n1,n2) then "
-             "completion; every store call of any kind incl. reads (mode 2). distinct = distinct case text; non-trivial = "
+             "completion; every store call of any kind incl. reads (mode 2); for every branch as victim, ONE SQL statement inside "
+             "SetWithLog failing (reflogs insert / refs upsert, injected by a SQLite trigger below the ref.Store method), alone, "
+             "after a crash, and twice, then re-run. distinct = distinct case text; non-trivial = "
              ">=1 staged branch, transaction exists, >=2 ops",
         trusted=["harness/c14.go fault-injecting ref.Store/objects.Store wrappers (fail the chosen call without touching the "
                  "underlying store); commit identity projected to (table id, #transaction prefixes, parent chain); which "
